@@ -5,7 +5,7 @@
 (* Aes, Prim!GfLoop, HashStd!Digest) and against the JDK.  Run by          *)
 (* setup_cmd; a failing ASSUME makes TLC exit non-zero.                    *)
 (***************************************************************************)
-EXTENDS Naturals, Sequences, TLC, HashStd
+EXTENDS Naturals, Sequences, TLC, MultiHash
 
 Seq16(h) == FromHex(h)
 K128 == FromHex("000102030405060708090a0b0c0d0e0f")
@@ -77,6 +77,15 @@ ASSUME ToHex(Murmur3x64128(<< >>, Z8)) = "00000000000000000000000000000000"
 ASSUME ToHex(RevBytes(SubSeq(Murmur3x64128(Fox, Z8), 1, 8))) = "e34bbc7bbc071b6c"
 ASSUME ToHex(RevBytes(SubSeq(Murmur3x64128(Fox, Z8), 9, 16))) = "7a433ca9c49a9347"
 ASSUME ToHex(RevBytes(SubSeq(Murmur3x64128(<< 104, 101, 108, 108, 111 >>, Z8), 1, 8))) = "cbd8a7b341bd9b02"
+
+\* streaming multi-hash / murmur = the definitions (MultiHash!MhDigest, Murmur3x64128) on segment lists
+SegsA == << << 21, 5, 0, 1000 >>, << 22, 7, 0, 24 >>, << 0, 0, 0, 0 >>, << 23, 1048570, 0, 2100 >> >>
+BytesA == PatBytes(21, 5, 1000) \o PatBytes(22, 7, 24) \o PatBytes(23, 1048570, 6) \o PatBytes(23, 0, 2094)
+ASSUME \A a \in {"sha1", "sha256"} : MhDigestOfSegs(a, SegsA) = MhDigest(a, BytesA)
+ASSUME \A n \in {0, 1, 1015, 1016, 1024, 2047} :
+          \A a \in {"sha1", "sha256"} : MhDigestOfSegs(a, << << 30, 3, 0, n >> >>) = MhDigest(a, PatBytes(30, 3, n))
+ASSUME Murmur3OfSegs(SegsA, << 1, 2, 3, 4, 5, 6, 7, 8 >>) = Murmur3x64128(BytesA, << 1, 2, 3, 4, 5, 6, 7, 8 >>)
+ASSUME \A n \in {0, 1, 15, 16, 17, 33} : Murmur3OfSegs(<< << 31, 9, 0, n >> >>, Z8) = Murmur3x64128(PatBytes(31, 9, n), Z8)
 
 ASSUME ToHex(Rol64(FromHex("0100000000000080"), 1)) = "0300000000000000"
 ASSUME HexHas("00aabbcc", "aabb") /\ ~HexHas("0aabbc", "aabb") /\ XorBytes(<< 1, 2 >>, << 3, 255 >>) = << 2, 253 >>
